@@ -146,12 +146,10 @@ def run(ctx):
         else:
             cases = c01.gen_cases(ctx, T, 2, 4, [1], 0, Rm, ctx.seed)[::2] + c01.gen_cases(ctx, T, 3, 4, [1, 2], 800, Rm, ctx.seed)
         for n, c in enumerate(cases):
-            sts = c01.styles_for(c)
             for k, (emb_name, layout, R) in enumerate(cl):
                 if quick and (n + k) % len(cl):
                     continue
-                tagged = "tag" in LAYOUTS[layout][0]
-                items.append((c, emb_name, layout, c01.pick_style(sts, layout, n + k), R))
+                items.append((c, emb_name, layout, c01.pick_style(c01.styles_for(c, emb_name), layout, n + k), R))
     pmap(ctx, replay_population, items)
     ctx.traces += len(items)
     ctx.sample({"population": items[0][0]["F"], "admissible_by_half_tick": items[0][0]["close"][:6],
